@@ -210,6 +210,9 @@ func (c *Conn) deliver(k *Kernel) int {
 	c.mu.Lock()
 	defer c.mu.Unlock()
 	n := len(c.pending)
+	if n == 0 {
+		return 0 // (burst mode: an earlier action of the same burst, e.g. a reset, already emptied it)
+	}
 	switch c.segMode() {
 	case 1:
 		// random segment, biased to small and to whole
